@@ -40,14 +40,14 @@ CLAIMED = {
    technique="Coq proofs (LDPC encoder model; RS canonical generator: field axioms by sweep, Lagrange/Vandermonde uniqueness) + extracted-model-vs-C correspondence on encoder output",
    ref="3/C06"),
  "C07": dict(
-   text="Exploration only: every generated life cycle of the three codecs (limits included: k up to 200/300, both APIs, callbacks, both decoder roles, early release) runs under ASan/UBSan with each application buffer in its own exact-size heap block, and every buffer handed to the library is compared before/after. No theorem: pointer-level memory safety of compiled C cannot be stated in a Gallina model without a C semantics (none is installed); the index-range/ownership ledger model of DESIGN 3/C07 has not been built.",
-   note="Trusted: ASan/UBSan runtime (alignment and shift-base checks disabled, see tools/vlib.py), drv_dec.c.",
-   technique="(no proof) sanitizer-instrumented exploration of protocol-conforming histories",
+   text="Two layers. (1) The part of the property that is logic is proved in Coq for the models tied to the C (Properties_C07.v): the symbol kernels change exactly the first `size` bytes and do not depend on operand bytes beyond `size`; the LDPC/2D encoder leaves sources untouched; the streaming decoder, the ML finish and the Reed-Solomon API layer never overwrite a table entry they hold (received or decoded) - for every history, with no hypothesis on the data - and the entry written for a fresh submission is the submitted buffer itself. (2) Pointer-level behaviour of the compiled C (out-of-bounds access, use after free) is run-time behaviour that no Gallina model here can exhibit (no C semantics is installed): it is decided by exploration - every generated life cycle of the three codecs (limits included: k up to 200/300, symbol lengths covering every residue of the unrolled kernels, both APIs, callbacks, both decoder roles, early release) runs under ASan/UBSan with each application buffer in its own exact-size heap block, and every buffer handed to the library is compared before/after. The level is labelled exploration because layer (2) is what decides memory safety.",
+   note="Trusted: Coq kernel for layer (1), with the hand-written models (ITModel, MLModel, RSApi, Kernels) tied to the C by the session/kernel correspondences; ASan/UBSan runtime (alignment and shift-base checks disabled, see tools/vlib.py), drv_dec.c for layer (2).",
+   technique="Coq theorems for the table/byte-level contract of the models + sanitizer-instrumented exploration of protocol-conforming histories for pointer-level safety",
    ref="3/C07", cat="exploration"),
  "C08": dict(
-   text="Exploration only: malloc/calloc/realloc/free are wrapped at link time in the session driver; after release and after the application freed exactly what the API says it owns, the live-block count must return to its pre-session value, for generated life cycles of all three codecs released at arbitrary points (any number of calls, with/without finish, both roles, all callback modes); double frees are ASan errors. The ledger model of DESIGN 3/C08 has not been built, so there is no theorem.",
-   note="Trusted: link-time allocation counters + ASan, drv_dec.c.",
-   technique="(no proof) allocation accounting over generated life cycles",
+   text="Two layers. (1) Proved in Coq for the models tied to the C (Properties_C08.v): the library's own sub-allocator (the 1024-entry block pool of the sparse matrix) conserves entries in every reachable state (blocks*1024 = free + live, so freeing the blocks releases everything); a table entry is written at most once, so a buffer allocated for a decoded symbol is never replaced (orphaned) before release; the Reed-Solomon finish obtains exactly one buffer per source entry still empty and none for a received one. (2) Whether the compiled library has freed every malloc'ed block exactly once is a fact about the run-time heap that no model here can exhibit: it is decided by exploration - malloc/calloc/realloc/free are wrapped at link time in the session driver; after release and after the application freed exactly what the API says it owns, the live-block count must return to its pre-session value, for generated life cycles of all three codecs released at arbitrary points (any number of calls, with/without finish, both roles, all callback modes); double frees are ASan errors. Labelled exploration because layer (2) decides the property.",
+   note="Trusted: Coq kernel for layer (1); link-time allocation counters + ASan, drv_dec.c for layer (2).",
+   technique="Coq theorems for the bookkeeping that is logic (entry pool conservation, write-once tables, one buffer per missing source) + link-time allocation accounting over generated life cycles",
    ref="3/C08", cat="exploration"),
  "C09": dict(
    text="Machine-checked proof (Coq, ZifyBool/lia) that the decision functions mirroring the three set_fec_parameters implementations accept exactly the advertised limits, for ALL 32-bit k, r (incl. the UINT32 wrap of k+r), L, N1, seed: LDPC-Staircase and RS GF(2^8) fully; RS GF(2^m) is refuted by a witness (n above the field size is accepted: known finding, the repository's own test relies on it) and proved outside that class. Limits are re-read from /repo's headers on every run. The decision functions are compared with the compiled C (encoder and decoder sessions) on an exhaustive boundary grid (~18,000 points); accepted points are followed by a full encode/lose/decode cycle and by 13 corrupted calls (NULL session, ESI out of range, wrong role, NULL symbol) that must return an error status and leave both sessions usable.",
@@ -90,7 +90,7 @@ CLAIMED = {
    technique="Coq refinement proof (model -> abstract set) by invariant preservation + extracted-model-vs-C correspondence after every operation",
    ref="3/C17"),
  "C18": dict(
-   text="Machine-checked proofs (Coq, no axioms): (a) for the Gallina mirror of the row-oriented dense matrix (32-bit word packing) get-after-set/flip/clear/row-XOR are exactly the bit-matrix operations for all dimensions (column counts not multiples of 32 included), an all-zero-words row has no bit; (b) for the mirror of the symbol-level solver (pivot search, row swap, word-granular row XOR, NULL constant terms, back-substitution) whenever it returns, its result coincides with EVERY solution of the p x q system on all q unknowns and is a solution as soon as one exists; it gives up if and only if the matrix has a non-trivial GF(2) kernel vector (no full column rank), independently of the right-hand sides; all this for all p, q, matrices, right-hand sides and symbol groups. Not yet theorems: dense copy/copyrows/copycols, SWAR popcounts; these are decided by the correspondence (extracted models vs C under ASan, all words incl. padding after every op; solver statuses and solutions) and by independent python oracles (bit matrix, GF(2) rank + unique solution, popcount).",
+   text="Machine-checked proofs (Coq, no axioms): (a) for the Gallina mirror of the row-oriented dense matrix (32-bit word packing) get-after-set/flip/clear/row-XOR are exactly the bit-matrix operations for all dimensions (column counts not multiples of 32 included), an all-zero-words row has no bit; (b) for the mirror of the symbol-level solver (pivot search, row swap, word-granular row XOR, NULL constant terms, back-substitution) whenever it returns, its result coincides with EVERY solution of the p x q system on all q unknowns and is a solution as soon as one exists; it gives up if and only if the matrix has a non-trivial GF(2) kernel vector (no full column rank), independently of the right-hand sides; all-zero rows with unspecified right-hand sides do not influence the result; all this for all p, q, matrices, right-hand sides and symbol groups; (c) copy, copy-rows (early stop included) and copy-columns are the bit-matrix copies within the bounds of the matrices given, a row is reported empty iff it has no bit, under invariants (well-formedness, zero padding bits, 32-bit words) preserved by every operation; (d) about the functions regenerated from of_hamming_weight.c on every run: the SWAR popcounts return the number of set bits for EVERY 32-/64-bit word, the byte table is the popcount of every byte, table-based and naive variants agree. Hand-modelled rather than translated: the word loop of of_hweight_array and the UINT8-pointer cast; these are decided by the correspondence (extracted models vs C under ASan, all words incl. padding after every op; solver statuses and solutions) and by independent python oracles (bit matrix, GF(2) rank + unique solution, popcount).",
    note="Trusted: Coq kernel; Dense.v/DenseSolve.v hand-written mirrors; extraction + drivers; oracles. Partial as stated.",
    technique="Coq proofs over hand-written mirrors (bit-level ops; solver soundness and completeness by row-operation invariants) + extracted-model-vs-C correspondence + rank oracle",
    ref="3/C18"),
